@@ -148,6 +148,29 @@ theorem C09_ready_current (env : Env) (s : St) (h : Inv s) (hr : isReady env s =
       intro f hf
       exact h4.2 f hf
 
+/-- **Discard.** In a state satisfying the invariant whose content path (if any) exists, if piece
+    hashes are present after an operation other than `generate`, they are the ones present
+    before, and the operation changed neither the content path, the listed files and their
+    sizes, the piece length, nor a filter list.  Contrapositive: whenever the set of files, their
+    sizes, the filters or the piece length change, previously computed hashes are discarded. -/
+theorem C09_pieces_survive_only_unchanged (env : Env) (s : St) (op : Op) (h : Inv s)
+    (hex : PathEx env s) (hop : op ≠ .generate) (g : Ghost)
+    (hg : (apply env s op).1.pieces = some g) :
+    s.pieces = some g ∧ (apply env s op).1.path = s.path ∧
+    (apply env s op).1.content = s.content ∧ (apply env s op).1.pl = s.pl ∧
+    (apply env s op).1.exGlobs = s.exGlobs ∧ (apply env s op).1.inGlobs = s.inGlobs := by
+  obtain ⟨a, b, c, d, e, f⟩ := apply_same h env hex op hop g hg
+  exact ⟨by rw [← a]; exact hg, b, c, d, e, f⟩
+
+/-- The side condition of `C09_pieces_survive_only_unchanged` is itself an invariant of every
+    operation under an unchanging file system (and holds for a fresh `Torrent()`). -/
+theorem C09_path_exists_step (env : Env) (s : St) (op : Op) (h : PathEx env s) :
+    PathEx env (apply env s op).1 :=
+  apply_pathEx h op
+
+theorem C09_path_exists_init (env : Env) : PathEx env Attrs.init := by
+  intro p hp; simp [Attrs.init] at hp
+
 /-- `generate()` never fails for want of a piece length in a state satisfying the invariant. -/
 theorem C09_generate_no_internal (env : Env) (s : St) (h : Inv s) (w : String) :
     (generate env s).2 ≠ .err (.internal w) := by
